@@ -82,6 +82,17 @@ def translate(ctx):
     out = LEAN / "Gama" / "Gen" / "GkfDoc.lean"
     if not out.exists() or out.read_text() != txt:
         out.write_text(txt)
+    # round 8: the ostream format in force at every site of the export writer that prints a floating value
+    # (Gen/GkfFmtSites.lean; `C13_number_sites_formats` compares it with the formats the round trip is instantiated for)
+    try:
+        txt = _trd.generate_fmt(ctx.repo)
+    except _trd.DocError as e:
+        raise TieBroken("c13_doc(fmt_sites)", str(e))
+    except OSError as e:
+        raise TieBroken("c13_doc(fmt_sites)", f"source not readable: {e}")
+    out = LEAN / "Gama" / "Gen" / "GkfFmtSites.lean"
+    if not out.exists() or out.read_text() != txt:
+        out.write_text(txt)
     # round 6: the degrees branch of the printer theorems is instantiated with C18's model of gon2deg / deg2gon
     # (Lemmas/ExportDegrees.lean, DecimalCodecC13.lean); which formatter variant the tree contains (carry of seconds that
     # round to 60, fabs) is a regenerated constant of C18 (Gen/GeoVariants.lean) the proofs unfold: regenerate it here too,
